@@ -405,6 +405,30 @@ def r02_11(ctx: Ctx, rule: str = "R02.11") -> None:
                   construct="link text normalised on extract")
 
 
+def r02_13(ctx: Ctx, rule: str = "R02.13") -> None:
+    """'with dereference enabled each link is replaced by the content it points to': (a) write() hands the session's `dereference` to
+    Worker.archive (the parameter defaults to False, so a dropped keyword silently archives links as links); (b) in Worker.archive the flag
+    that tells Worker.write to store the LINK TEXT is off whenever deref is on (`f.is_symlink and not deref`)."""
+    w = shared.szf(ctx, "write")
+    calls = [c for c in q.calls(w) if "py7zr:Worker.archive" in shared.targets_of(ctx, w, c)]
+    ctx.floor(rule, len(calls), 1, "Worker.archive call in write()")
+    for c in calls:
+        val = next((k.value for k in c.keywords if k.arg == "deref"), c.args[3] if len(c.args) > 3 else None)
+        ctx.check(val is not None and norm(val) == "self.dereference", rule, w, c, "write() passes the session's dereference flag to the worker",
+                  "write() does not pass `deref=self.dereference` to Worker.archive (its default is False): with dereference=True symbolic links are still archived as links",
+                  construct="write drops deref")
+    a = ctx.prog.func("py7zr", "Worker.archive")
+    dp = "deref" if "deref" in a.params else None
+    ctx.need(dp is not None, "Worker.archive has no deref parameter")
+    wr = [c for c in q.calls(a) if attr_tail(c) == "write" and norm(c.func.value) == "self" and len(c.args) >= 3]
+    ctx.floor(rule, len(wr), 1, "Worker.write call in Worker.archive")
+    for c in wr:
+        ok = shared.off_when(a, c.args[2], lambda e: isinstance(e, ast.Name) and e.id == dp) and any(isinstance(x, ast.Attribute) and x.attr == "is_symlink" for x in ast.walk(q.expand_locals(a, c.args[2])))
+        ctx.check(ok, rule, a, c, "the link text is stored only for a link that is not dereferenced",
+                  f"Worker.archive tells Worker.write to store the link text under `{norm(c.args[2])}`, which is not switched off by `{dp}`: with dereference=True the text of the link is "
+                  "archived as the member's content instead of the file it points to", construct="assym ignores deref")
+
+
 def r02_12(ctx: Ctx, rule: str = "R02.12") -> None:
     """a link of the tree is re-created whenever it leads to a place inside the destination AS THE SYSTEM FOLLOWS IT.  The textual check
     (is_path_valid -> canonical_path) collapses 'name/..' without asking whether `name` is a link: with s -> a/b/c/d the valid link
@@ -452,6 +476,7 @@ def run(ctx: Ctx) -> None:
     r02_9(ctx)
     r02_11(ctx)
     r02_12(ctx)
+    r02_13(ctx)
     r02_10(ctx)
     r02_6(ctx)
     from . import c07 as _c07, c03 as _c03
